@@ -315,7 +315,7 @@ type Exec struct {
 	Opaque  map[string]int // opaque atoms encountered (key -> uses)
 	States  int            // abstract states visited
 	Limit   int
-	Trunc   bool // exploration hit Limit (treated as checker error by callers)
+	Trunc   bool              // exploration hit Limit (treated as checker error by callers)
 	Alias   map[string]string // variable key -> role name used in canonical strings
 
 	condSet  map[ast.Expr]*ast.SwitchStmt // case expressions -> their switch (nil tag => boolean)
